@@ -36,7 +36,7 @@ func DefaultGen() GenCfg {
 var comPool = []string{"CHF", "USD", "EUR", "AAPL", "BTC", "GLD", "X1", "Ærø"}
 var segPool = []string{"Bank", "Cash", "Broker", "Checking", "Savings", "US", "CH", "Food", "Rent", "Tax", "Salary", "Misc", "A1", "B2", "bank", "k2", "Übrig", "日本"}
 var roots = []string{"Assets", "Liabilities", "Equity", "Income", "Expenses"}
-var descPool = []string{"Groceries", "Salary", "Rent", "Transfer", "Buy", "Sell", "Fee", "Dividend", "Tax", "Gift", "Coffee & cake", "Zürich trip", " Padded", "Trailing ", "two  spaces", "\n  Dinner on the next line", "x", ""}
+var descPool = []string{"Groceries", "Salary", "Rent", "Transfer", "Buy", "Sell", "Fee", "Dividend", "Tax", "Gift", "Coffee & cake", "Zürich trip", " Padded", "Trailing ", "two  spaces", "\n  Dinner on the next line", "30% off", "discount 100%", "x", ""}
 
 var anchors = []Day{D(2019, 12, 20), D(2020, 2, 20), D(2021, 6, 25), D(2022, 12, 28), D(2023, 9, 30), D(2024, 2, 27)}
 
